@@ -260,6 +260,7 @@ var (
 // Capacity (new defect): the bulk has one slot per source entry, but with InjectiveMapping one source entry yields up
 // to two bulk entries: `one_slot` is the invariant the allocation relies on.
 //@ func (*indexer).indexSince
+//@   assertat idx.store.readTx integrity_checked: !arg2 && !arg3   # (C09) the indexer reads committed transactions only, with the integrity check on
 //@   requires idx.store != nil && idx.tx != nil && idx.spec != nil && idx.index != nil
 //@   requires idx.store.memSemaphore != nil && idx.store.commitWHub != nil
 //@   requires forall(j, 0, len(idx._kvs), idx._kvs[j] != nil)
